@@ -184,14 +184,21 @@ func parCoq(s string) string {
 	panic("harness: bad paradigm " + s)
 }
 
-func caseCoq(c *Case, o *Obs) string {
+func caseCoq(c *Case, all []Obs) string {
 	f := &flat{}
 	f.add(c.G)
 	inErr := "None"
 	if c.InErr != nil && (c.Par == "collect" || c.Par == "transform") {
 		inErr = lib.CoqSome(c.InErr.coq())
 	}
-	return lib.CoqApp("Case", "\n  "+lib.CoqList(f.graphs), parCoq(c.Par), lib.CoqBool(c.CancelBefore), inErr, "\n  "+o.coq())
+	if len(all) == 1 {
+		return lib.CoqApp("Case", "\n  "+lib.CoqList(f.graphs), parCoq(c.Par), lib.CoqBool(c.CancelBefore), inErr, "\n  "+all[0].coq())
+	}
+	var os []string
+	for i := range all {
+		os = append(os, "\n  "+all[i].coq())
+	}
+	return lib.CoqApp("CaseN", "\n  "+lib.CoqList(f.graphs), parCoq(c.Par), lib.CoqBool(c.CancelBefore), inErr, lib.CoqList(os))
 }
 
 var _ = strings.Join
